@@ -116,10 +116,16 @@ func (c *VirtualTable) BestIndex(input *sqlite.IndexInfoInput) (*sqlite.IndexInf
 		return nil, toSqlite(err)
 	}
 	used := make([]*sqlite.ConstraintUsage, len(indexIn))
+	argvIndex := 0
 	for i := range indexOut.Used {
 		if indexOut.Used[i] {
+			// SQLite wants the used constraints numbered 1, 2, ... without
+			// gaps, in the order Filter will receive their values; numbering
+			// by position failed ("xBestIndex malfunction") as soon as an
+			// unused constraint came before a used one.
+			argvIndex++
 			used[i] = &sqlite.ConstraintUsage{
-				ArgvIndex: i + 1,
+				ArgvIndex: argvIndex,
 				//Omit: true, // no known cases where this doesn't work, but...
 			}
 		}
